@@ -9,6 +9,7 @@ def text_edit(old, new):
     return edit
 O_ = 'src/pharmpy/model/external/nonmem/records/omega_record.py'
 MUTANTS = [
+    Mutant('dose_comp_not_int', A, edit_node('_dosing', stmt_containing('dose_comp = int(dose_comp)'), to_pass), 'A14', 'float compartment number in Rn/Dn (the defect repaired by 5fb3336)'),
     Mutant('if_skipped_demorgan', C, text_edit("logic = sympy.And(logic, *(sympy.Not(cond) for cond in skipped))", "logic = sympy.And(logic, sympy.Not(sympy.And(*skipped)))"), 'A8', 'NOT(AND) instead of AND(NOT)'),
     Mutant('thetas_fix_per_record', 'src/pharmpy/model/external/nonmem/parsing.py', text_edit("        fixs.extend(theta_record.fixs)\n        names.extend(theta_record.comment_names)\n    fixs = _fix_thetas_with_same_bounds(bounds, inits, fixs)", "        fixs.extend(_fix_thetas_with_same_bounds(bounds, inits, theta_record.fixs))\n        names.extend(theta_record.comment_names)"), 'A10', 'accumulated and per-record lists zipped'),
     Mutant('omega_single_form', O_, text_edit("                                    if sd:\n                                        A[i, j] = A[i, i] * A[j, j] * A[i, j]\n                                    else:\n                                        A[i, j] = math.sqrt(A[i, i]) * math.sqrt(A[j, j]) * A[i, j]", "                                    A[i, j] = math.sqrt(A[i, i]) * math.sqrt(A[j, j]) * A[i, j]"), 'A7', 'SD case dropped'),
